@@ -388,6 +388,10 @@ func registerModels(e *Engine) {
 	})
 	registerVerifAPI(e)
 	registerTimeModels(e)
+	registerRegexpModels(e)
+	registerStringModels(e)
+	registerTimerModels(e)
+	registerJSONModels(e)
 }
 
 type reflectVal struct{ v Iface }
